@@ -78,6 +78,19 @@ func (rd *ReorgDetector) removeTrackedBlockRange(id string, fromBlock, toBlock u
 	return err
 }
 
+// removeTrackedBlocks removes exactly the given tracked blocks (number and hash) of a subscriber from db
+func (rd *ReorgDetector) removeTrackedBlocks(id string, blocks []header) error {
+	for _, b := range blocks {
+		if _, err := rd.db.Exec(
+			"DELETE FROM tracked_block WHERE num = $1 AND hash = $2 AND subscriber_id = $3;",
+			b.Num, b.Hash.String(), id,
+		); err != nil {
+			return err
+		}
+	}
+	return nil
+}
+
 type ReorgEvent struct {
 	DetectedAt   int64       `meddler:"detected_at"`
 	FromBlock    uint64      `meddler:"from_block"`
